@@ -14,6 +14,11 @@ OWNER = {
     "rejected-call-changed-the-store": "C17",
     "invariant-broken-by-call": "C05",
     "metadata-not-at-address": "C11",
+    "rejected-rebind-changed-references-or-objects": "C03",
+    "referenced-object-removed-or-altered": "C04",
+    "valid-object-rejected": "C06",
+    "invalid-object-accepted": "C06",
+    "invalid-object-left-pid-bound": "C06",
 }
 COUNTER_OF = {
     "C17": ("read-only-unchanged", "rejected-unchanged"),
@@ -21,6 +26,9 @@ COUNTER_OF = {
     "C11": ("metadata-at-address",),
     "C01": ("store-result-true",),
     "C02": ("store-result-true",),
+    "C03": ("rebind-rejected-unchanged",),
+    "C04": ("referenced-objects-intact",),
+    "C06": ("validation-verdict",),
 }
 
 
